@@ -11,13 +11,23 @@ def strip_comments(src):
     return re.sub(r"--.*", "", src)
 
 
-def lean_files():
-    out = []
-    for root, _, files in os.walk(os.path.join(C.LEAN, "Cacache")):
-        for f in files:
-            if f.endswith(".lean"):
-                out.append(os.path.join(root, f))
-    return out
+def lean_files(roots=("Driver",)):
+    """The Lean source files in the import closure of `roots` (module names) within this project:
+    exactly what the theorems and the driver are built from.  (A work-in-progress file that nothing
+    imports is not part of any checked statement.)"""
+    seen, todo = {}, list(roots)
+    while todo:
+        mod = todo.pop()
+        if mod in seen:
+            continue
+        path = os.path.join(C.LEAN, *mod.split(".")) + ".lean"
+        if not os.path.exists(path):
+            continue
+        seen[mod] = path
+        for m in re.findall(r"^import\s+(\S+)", open(path).read(), flags=re.M):
+            if m == "Cacache" or m.startswith("Cacache.") or m == "Driver":
+                todo.append(m)
+    return sorted(seen.values())
 
 
 def check_proofs(pid, tier):
@@ -45,7 +55,7 @@ def check_proofs(pid, tier):
         res["problems"].append(f"theorem module {mod} no longer builds: {bad[:3]}")
         return res
     # forbidden constructs anywhere in the library
-    for f in lean_files():
+    for f in lean_files((mod, "Driver")):
         s = strip_comments(open(f).read())
         m = FORBIDDEN.search(s)
         if m:
